@@ -38,7 +38,9 @@ func (w *zzW) Write(b []byte) (int, error) {
 // ZZC18Helper(n): the bundled Trace helper on a request whose dump is arbitrary.
 func ZZC18Helper(n int) {
 	withBody := n >= 1
-	r := &http.Request{Method: "TRACE", URL: &url.URL{Path: "/t"}, Header: http.Header{"X-A": {"<&>"}}, Host: "h", Proto: "HTTP/1.1", ProtoMajor: 1, ProtoMinor: 1}
+	// the request carries all five HTML metacharacters, or an apostrophe only, or a quote only
+	hv := []string{"<&>\"'", "o'neil", "say \"hi\""}[zzv.Choice("header", 3)]
+	r := &http.Request{Method: "TRACE", URL: &url.URL{Path: "/t"}, Header: http.Header{"X-A": {hv}}, Host: "h", Proto: "HTTP/1.1", ProtoMajor: 1, ProtoMinor: 1}
 	if n >= 1 {
 		// a body whose length is not declared (chunked / streamed)
 		r.Body = io.NopCloser(strings.NewReader("B<o>dy"))
